@@ -79,9 +79,11 @@ def replay_state(chk, rec, n):
             if err is None:
                 chk.violation(f"cbdt: a {im['w']}x{im['h']} bitmap was accepted (format limit 255)", replay)
             continue
-        if rec["outcome"] != "ok":
-            if err is None and fmt == "cbdt":
+        if rec["outcome"] != "ok" and fmt == "cbdt":
+            if err is None:
                 chk.notes["reject_drift"] = chk.notes.get("reject_drift", 0) + 1
+            continue
+        if rec["outcome"] not in ("ok", "PackError"):
             continue
         if err is not None:
             if fmt == "sbix" and (im["w"] > 255 or im["h"] > 255):
